@@ -24,6 +24,8 @@ PASS_LAST = (
     "checked_add", "checked_sub", "checked_mul", "checked_div", "wrapping_add", "wrapping_sub",
     "wrapping_mul", "saturating_add", "saturating_sub", "saturating_mul", "min", "max", "clamp",
     "overflowing_add", "overflowing_sub", "pow", "abs", "unsigned_abs",
+    # lexeme -> number conversion of the lexer (Substr::to::<T>)
+    "to",
 )
 
 
@@ -60,19 +62,26 @@ class Flow:
                                 self.uses.setdefault(e[1], []).append(("callarg", bi, t, k))
 
     # ---- backward ----------------------------------------------------------
-    def origins(self, local, passthrough=PASS_LAST, fields=None, stop_calls=()):
+    def origins(self, local, passthrough=PASS_LAST, fields=None, stop_calls=(), at=None, cfg=None):
         """atoms the local can derive from: ("call", name, bb, term) / ("arg", n) /
         ("const", c) / ("agg", kinddict, bb) / ("binop", op, bb) / ("other", ...).
         `fields`, if given, is a set that collects the names of fields read on the way."""
+        # with at=(block index) and cfg given, a definition is considered only if its block can
+        # reach the point of use (kills the flow-insensitive mixing of a later re-assignment of
+        # the same variable into an earlier use)
         seen = set()
         atoms = []
-        st = [local]
+        st0 = [(local, at)]
+        st = _Stack(st0)
         while st:
-            l = st.pop()
-            if l in seen:
+            l, here = st.pop()
+            if (l, here) in seen:
                 continue
-            seen.add(l)
+            seen.add((l, here))
+            st.here = here
             ds = self.defs.get(l, [])
+            if cfg is not None and here is not None:
+                ds = [d for d in ds if d[1] == here or cfg.can_reach(d[1], here)]
             if not ds:
                 if 1 <= l <= self.body["argc"]:
                     atoms.append(("arg", l))
@@ -80,6 +89,8 @@ class Flow:
             if 1 <= l <= self.body["argc"]:
                 atoms.append(("arg", l))
             for d in ds:
+                if cfg is not None and here is not None:
+                    st.here = d[1]
                 if d[0] == "call":
                     t = d[2]
                     name = callee_name(t)
@@ -168,6 +179,23 @@ class Flow:
                     if last_seg(callee_name(t)) in passthrough and t.get("dest"):
                         st.append(t["dest"][0])
         return seen, sinks
+
+
+class _Stack:
+    """work list of (local, block-of-use); plain `append(local)` uses the current def's block"""
+
+    def __init__(self, items):
+        self.items = list(items)
+        self.here = None
+
+    def append(self, l):
+        self.items.append((l, self.here))
+
+    def pop(self):
+        return self.items.pop()
+
+    def __bool__(self):
+        return bool(self.items)
 
 
 def rv_locals(rv):
